@@ -64,18 +64,56 @@ def build(case, fresh=False):
     return s
 
 
-def mutants(data, rng, n):
-    """up to n single-node mutations of the document, serialised with lxml (prefixes and declarations are kept)"""
+def serialise(root, marks):
+    """own serialiser for an lxml tree: the declarations of the source are kept where they are (QName values in content stay resolvable); `marks`
+    maps an element to ('rebind', prefix) - its own tag is written with a fresh prefix declared on the element itself - or ('default',) - its own
+    tag is written unprefixed under a default-namespace declaration on the element itself"""
+    from xml.sax.saxutils import escape, quoteattr
+    import lxml.etree as LE
+    out = []
+
+    def qn(tag, scope, attr=False):
+        if tag[0] != '{': return tag
+        uri, local = tag[1:].split('}')
+        if not attr and scope.get(None) == uri: return local
+        for p, u in scope.items():
+            if p is not None and u == uri: return f'{p}:{local}'
+        raise KeyError(uri)
+
+    def w(e, parent_scope):
+        if not isinstance(e.tag, str):
+            out.append(LE.tostring(e, with_tail=False).decode()); out.append(escape(e.tail or '')); return
+        own = {p: u for p, u in e.nsmap.items() if parent_scope.get(p) != u}
+        m = marks.get(e); scope = dict(parent_scope); scope.update(own); name = None
+        if m and e.tag[0] == '{':
+            uri, local = e.tag[1:].split('}')
+            if m[0] == 'rebind': own[m[1]] = uri; scope[m[1]] = uri; name = f'{m[1]}:{local}'
+            elif m[0] == 'default': own[None] = uri; scope[None] = uri; name = local
+        if name is None: name = qn(e.tag, scope)
+        decl = ''.join(f' xmlns{":" + p if p else ""}={quoteattr(u)}' for p, u in own.items())
+        attrs = ''.join(f' {qn(k, scope, True)}={quoteattr(v)}' for k, v in e.attrib.items())
+        out.append(f'<{name}{decl}{attrs}>'); out.append(escape(e.text or ''))
+        for c in e: w(c, scope)
+        out.append(f'</{name}>'); out.append(escape(e.tail or '') if e is not root else '')
+    w(root, {})
+    return ''.join(out).encode()
+
+
+XSI = 'http://www.w3.org/2001/XMLSchema-instance'
+MUTATIONS += ('comment', 'pi', 'rebind', 'default', 'xsi_nil', 'xsi_type', 'foreign_attr')
+
+
+def mutants(data, rng, n, types=()):
+    """up to n single-node mutations of the document; `types` = expanded names of global types for the xsi:type mutation"""
     import lxml.etree as LE
     out = [('original', data)]
     try: root = LE.fromstring(data)
     except Exception: return out
-    nodes = [e for e in root.iter() if isinstance(e.tag, str)]
     tries = 0
     while len(out) <= n and tries < 6 * n:
         tries += 1
         r2 = copy.deepcopy(root); ns2 = [e for e in r2.iter() if isinstance(e.tag, str)]
-        k = rng.randrange(len(ns2)); t = ns2[k]; m = rng.choice(MUTATIONS)
+        k = rng.randrange(len(ns2)); t = ns2[k]; m = rng.choice(MUTATIONS); marks = {}
         if m == 'text':
             if len(t): continue
             t.text = rng.choice(['zz', '', ' 1 ', '-1', '99999999999999999999', '2000-13-01', 'true'])
@@ -86,6 +124,7 @@ def mutants(data, rng, n):
             if not t.attrib: continue
             del t.attrib[rng.choice(sorted(t.attrib))]
         elif m == 'add_attr': t.set('bogus', '1')
+        elif m == 'foreign_attr': t.set('{urn:verif:foreign}bogus', '1')
         elif m == 'change_attr':
             if not t.attrib: continue
             t.set(rng.choice(sorted(t.attrib)), rng.choice(['zz', '', '-1', 'true']))
@@ -102,11 +141,57 @@ def mutants(data, rng, n):
             if t is r2: continue
             q = LE.QName(t); t.tag = ('{%s}' % q.namespace if q.namespace else '') + q.localname + 'X'
         elif m == 'unknown_child': t.insert(rng.randrange(len(t) + 1), LE.Element('bogus'))
-        out.append((f'{m}@{k}', LE.tostring(r2)))
+        elif m == 'comment': t.insert(rng.randrange(len(t) + 1), LE.Comment(' c '))
+        elif m == 'pi': t.insert(rng.randrange(len(t) + 1), LE.ProcessingInstruction('verif', 'x'))
+        elif m == 'rebind':
+            if t.tag[0] != '{': continue
+            marks[t] = ('rebind', 'zq')
+        elif m == 'default':
+            if t.tag[0] != '{' or any(isinstance(x.tag, str) and x.tag[0] != '{' for x in t.iter()): continue
+            marks[t] = ('default',)
+        elif m == 'xsi_nil':
+            t.set('{%s}nil' % XSI, rng.choice(['true', 'true', '1', 'false']))
+            if rng.random() < .6:
+                for c in list(t): t.remove(c)
+                t.text = None
+        elif m == 'xsi_type':
+            if not types: continue
+            marks[t] = ('xsitype', rng.choice(types))
+        try:
+            if m == 'xsi_type':
+                uri, local = marks.pop(t)[1]
+                if uri:
+                    # the prefix of the QName value has to be in scope at the node: a fresh one is declared on it through a foreign attribute's namespace
+                    pfx = 'zt'; holder = LE.Element(t.tag, nsmap={pfx: uri}); holder.text = t.text; holder.tail = t.tail
+                    for a, v in t.attrib.items(): holder.set(a, v)
+                    for c in list(t): holder.append(c)
+                    holder.set('{%s}type' % XSI, f'{pfx}:{local}')
+                    if t is r2: r2 = holder
+                    else: t.getparent().replace(t, holder)
+                    if holder.nsmap.get(pfx) != uri: continue
+                else: t.set('{%s}type' % XSI, local)
+            d = serialise(r2, marks) if marks else LE.tostring(r2)
+            LE.fromstring(d)
+        except Exception: continue
+        out.append((f'{m}@{k}', d))
     return out
 
 
-def sig(errs): return [(type(e).__name__, e.path, (e.reason or '')[:70]) for e in errs]
+def expanded(path, namespaces):
+    """the steps of an error path with their prefixes resolved: the spelling depends on the declarations in scope when the path is computed"""
+    if not path: return path
+    ns = namespaces or {}
+    out = []
+    for st in path.split('/'):
+        name, br, pos = st.partition('[')
+        if ':' in name and not name.startswith('{'):
+            p, local = name.split(':', 1); name = '{%s}%s' % (ns.get(p, p), local)
+        elif name and name[0] != '{' and ns.get(''): name = '{%s}%s' % (ns[''], name)
+        out.append(name + br + pos)
+    return '/'.join(out)
+
+
+def sig(errs): return [(type(e).__name__, expanded(e.path, e.namespaces), (e.reason or '')[:70]) for e in errs]
 
 
 ROOT_LAST = 'C06-lazy-root-errors-after-chunk-errors'
@@ -162,15 +247,17 @@ def contracts(s, fresh_builder, data, workdir, which):
     if 'lazy' in which or 'total' in which:
         p = os.path.join(workdir, f'c{os.getpid()}.xml'); open(p, 'wb').write(data)
         try:
-            rootpath = E and None
+            import re
+            # a lazy error computes its path when it is created, with the prefixes then in scope, and keeps only the string: steps are compared by local name and position
+            loc = lambda pth: re.sub(r'\{[^}]*\}|[A-Za-z_][\w.-]*:(?=[A-Za-z_])', '', pth or '')
+            EE = [(x[0], loc(x[1])) for x in E]; rp = '/' + res.root.tag.split('}')[-1]
             for thin in (True, False):
                 lz = xmlschema.XMLResource(p, lazy=True, thin_lazy=thin)
-                EL = [x[:2] for x in sig(s.iter_errors(lz))]; EE = [x[:2] for x in E]
+                EL = [(type(e).__name__, loc(e.path)) for e in s.iter_errors(lz)]
                 if EL == EE: continue
                 # the root element of a lazy resource is complete - and validated - only after its last chunk: its own errors come last
-                rp = '/' + EE[0][1].split('/')[1] if EE and EE[0][1] else None
                 split = lambda L: ([x for x in L if x[1] != rp], [x for x in L if x[1] == rp])
-                if rp and split(EL) == split(EE) and EL == split(EL)[0] + split(EL)[1]: bad.append(('lazy', 'KNOWN:' + ROOT_LAST)); break
+                if split(EL) == split(EE) and EL == split(EL)[0] + split(EL)[1]: bad.append(('lazy', 'KNOWN:' + ROOT_LAST)); break
                 bad.append(('lazy', f'lazy (thin={thin}) errors differ: {EL[:3]} vs {EE[:3]}')); break
         except lib as e: bad.append(('lazy', f'lazy validation raised {type(e).__name__}: {str(e)[:100]}'))
         except Exception as e: bad.append(('total', f'lazy: {type(e).__name__}: {str(e)[:120]}'))
@@ -300,7 +387,8 @@ def eval_case(args):
     data = open(os.path.join(CASES_DIR, case['file']), 'rb').read()
     rng = random.Random(f"{seed}:{case['file']}:{case['ver']}")
     bad = []; cnt = 0
-    for i, (tag, d) in enumerate(mutants(data, rng, n)):
+    types = sorted((t.name[1:].split('}') if t.name[0] == '{' else ['', t.name]) for t in s.maps.types.values() if t.name and not t.name.startswith('{http://www.w3.org/2001/XMLSchema}'))[:40]
+    for i, (tag, d) in enumerate(mutants(data, rng, n, [tuple(x) for x in types])):
         fb = (lambda: build(case, fresh=True)) if ('repeat' in which and i % fresh_every == 0) else None
         cnt += 1
         for c, obs in contracts(s, fb, d, workdir, which):
